@@ -487,6 +487,30 @@ pub fn gen_statement<F: PrimeField>(rng: &mut Rng, curve: Curve, kn: &Knobs) -> 
             }
         }
     }
+    // occasionally a FORWARD reference: an earlier top-level constraint additionally names,
+    // through a hand-built handle, a commitment that only arrives later; the added term
+    // c * (C_j - v_j) is zero under the assignment, so satisfaction is unchanged
+    if kn.raw_refs && chance(rng, 1, 6) {
+        let mut ord = 0usize;
+        let mut later: Vec<(usize, usize, S)> = vec![]; // (op index, commitment ordinal, value)
+        for (i, op) in g.ops.iter().enumerate() {
+            if let Op::Commit { v, .. } = op {
+                later.push((i, ord, v.clone()));
+                ord += 1;
+            }
+        }
+        let cons: Vec<usize> = g.ops.iter().enumerate().filter(|(i, o)| matches!(o, Op::Constrain(_)) && later.iter().any(|(ci, _, _)| ci > i)).map(|(i, _)| i).collect();
+        if !cons.is_empty() {
+            let at = *pick(rng, &cons);
+            let cands: Vec<&(usize, usize, S)> = later.iter().filter(|(ci, _, _)| *ci > at).collect();
+            let (_, j, v) = (*pick(rng, &cands)).clone();
+            let c = Coef::Lit(gen_scalar_nonzero::<F>(rng));
+            if let Op::Constrain(e) = &g.ops[at] {
+                let fwd = Expr::scale(Expr::sub(Expr::Raw(VK::C(j)), Expr::K(v)), c);
+                g.ops[at] = Op::Constrain(Expr::add(e.clone(), fwd));
+            }
+        }
+    }
     Statement {
         curve,
         tlabel,
